@@ -21,6 +21,7 @@ SAMLP = 'urn:oasis:names:tc:SAML:2.0:protocol'
 DS = 'http://www.w3.org/2000/09/xmldsig#'
 GOOD = {'givenName': ['Derek'], 'mail': ['derek@example.org']}
 EVIL_VALUE, EVIL_SUBJECT = 'administrator@example.org', 'EVIL-subject'
+FOREIGN_ISSUER = 'https://idp-b.example.net/idp.xml'
 
 
 def q(ns, name):
@@ -109,7 +110,7 @@ def _outer_response(root, new_id, park, junk_sig, evil):
     return outer
 
 
-def forgeries(xml):
+def forgeries(xml, resign=None):
     """(name, forged xml) pairs derived from one genuine signed response"""
     root = ET.fromstring(xml.encode('utf-8'))
     assertion = root.find(q(SAML, 'Assertion'))
@@ -188,6 +189,16 @@ def forgeries(xml):
         evil, _ = _evil_copy(a, 'id-evil-assertion', 'none')
         r.append(evil)
         add('signature-relocated-to-response', r)
+    # ---- (C03) the assertion claims another identity provider as its issuer but is signed with the key of the one that sent it
+    if resign is not None:
+        r = copy.deepcopy(root)
+        a = r.find(q(SAML, 'Assertion'))
+        s_el = a.find(q(DS, 'Signature'))
+        iss = a.find(q(SAML, 'Issuer'))
+        if s_el is not None and iss is not None and r.find(q(DS, 'Signature')) is None:
+            iss.text = FOREIGN_ISSUER
+            resign(r, a, s_el)
+            add('foreign-issuer-signed-by-the-sender', r)
     # ---- a forged Response around the genuine one
     for park in ('extensions-first', 'extensions-last', 'object'):
         for new_id in (None, 'id-evil-response'):
@@ -242,6 +253,17 @@ def run(tier, seed):
     from saml2_tophat import sigver
     from bounded import xmlsec1_standin as tool
     helper = getattr(sigver, 'signature_is_enveloped', None)
+    import hashlib
+
+    def make_resign(kid):
+        def resign(doc_root, elem, sig):
+            # what the stand-in tool's --sign does, for the sending IdP's key
+            digest = tool.digest_of(elem, sig)
+            for dv in sig.iter(q(DS, 'DigestValue')):
+                dv.text = digest
+            for sv in sig.iter(q(DS, 'SignatureValue')):
+                sv.text = hashlib.sha256((kid + ':' + digest).encode()).hexdigest()
+        return resign
     with Env() as env:
         for sign_resp, sign_ass, encrypted in ((True, False, False), (False, True, False), (True, True, False),
                                                (False, True, True), (True, True, True)):
@@ -289,9 +311,16 @@ def run(tier, seed):
                         violations.append({'name': 'bounded[wrap-table:genuine]', 'case': label, 'what': 'no EncryptedAssertion in the response'})
                         continue
                     plain, template, kid = opened
-                    candidates = [('genuine', xml)] + [(nm + '+encrypted', reencrypt(f, template, kid)) for nm, f in forgeries(plain)]
+                    import os as _os
+                    from bounded._standin_env import PAIRS
+                    skid = env.key_table[_os.path.join(env.keys, PAIRS['idp'][0])]
+                    candidates = [('genuine', xml)] + [(nm + '+encrypted', reencrypt(f, template, kid))
+                                                       for nm, f in forgeries(plain, make_resign(skid))]
                 else:
-                    candidates = [('genuine', xml)] + forgeries(xml)
+                    import os as _os
+                    from bounded._standin_env import PAIRS
+                    kid = env.key_table[_os.path.join(env.keys, PAIRS['idp'][0])]
+                    candidates = [('genuine', xml)] + forgeries(xml, make_resign(kid))
                 for name, forged in candidates:
                     # the library's structural helper against an independent reading of the same document, for every ID in it
                     if helper is not None:
@@ -318,11 +347,67 @@ def run(tier, seed):
                         rejected += 1
                         continue
                     ava, subject = got
+                    if name.startswith('foreign-issuer'):
+                        violations.append({'name': 'bounded[wrap-table:foreign-issuer]', 'case': '%s; forgery %s' % (label, name),
+                                           'what': 'an assertion naming %s as its issuer, signed with the key of the identity provider that sent the '
+                                                   'response, was accepted (subject %r): a signature is to be trusted only under its issuer\'s keys'
+                                                   % (FOREIGN_ISSUER, subject), 'input': forged[:20000]})
+                        continue
                     if EVIL_VALUE in str(ava) or subject == EVIL_SUBJECT or ava != GOOD or subject != 'derek-subject':
                         violations.append({'name': 'bounded[wrap-table:%s]' % name.split('[')[0], 'case': '%s; forgery %s' % (label, name),
                                            'what': 'a rearranged copy of a validly signed response was accepted with subject %r and attributes %r '
                                                    '(the signed response asserts subject %r and %r)' % (subject, ava, 'derek-subject', GOOD),
                                            'input': forged if len(forged) < 20000 else forged[:20000]})
+        # ---- (C03) PEFIM layout: the attribute assertion travels encrypted in the Advice of the outer assertion and is verified, after
+        #      decryption, with the outer issuer as a hint.  Control: inner assertion issued and signed by the sender.  Forgery: the
+        #      inner assertion names the OTHER identity provider as issuer but carries a signature made with the sender's key.
+        import os as _os
+        from bounded._standin_env import PAIRS as _PAIRS
+        sender_kid = env.key_table[_os.path.join(env.keys, _PAIRS['idp'][0])]
+        sp = env.sp_for('sp', False, False)
+        for foreign in (False, True):
+            n += 1
+            label = 'PEFIM advice assertion, signed by the sender, issuer %s' % ('the OTHER identity provider' if foreign else 'the sender (control)')
+            try:
+                rid, _req = sp.create_authn_request(SSO, binding=env.POST)
+                name_id = saml.NameID(format=saml.NAMEID_FORMAT_PERSISTENT, text='derek-subject', sp_name_qualifier=SP_ID)
+                resp = env.idp.create_authn_response(identity=dict((k, list(v)) for k, v in GOOD.items()), in_response_to=rid, destination=ACS,
+                                                     sp_entity_id=SP_ID, name_id=name_id, userid='user-1', pefim=True,
+                                                     authn={'class_ref': PASSWORDPROTECTEDTRANSPORT, 'authn_auth': 'https://idp.example.org/'},
+                                                     sign_response=False, sign_assertion=False)
+                root = ET.fromstring((resp if isinstance(resp, str) else str(resp)).encode('utf-8'))
+                ed = root.find('%s/%s/%s/%s' % (q(SAML, 'Assertion'), q(SAML, 'Advice'), q(SAML, 'EncryptedAssertion'), q(XENC, 'EncryptedData')))
+                cv = list(ed.iter(q(XENC, 'CipherValue')))[-1]
+                kid, _, clear = base64.b64decode(cv.text.strip()).partition(b'\n')
+                inner = ET.fromstring(clear)
+                if foreign:
+                    iss = inner.find(q(SAML, 'Issuer'))
+                    if iss is None:             # the attribute assertion is built without an Issuer of its own
+                        iss = ET.Element(q(SAML, 'Issuer'))
+                        inner.insert(0, iss)
+                    iss.text = FOREIGN_ISSUER
+                if inner.find(q(DS, 'Signature')) is None:
+                    inner.insert(1 if inner.find(q(SAML, 'Issuer')) is not None else 0, _junk_signature(inner.get('ID')))
+                make_resign(sender_kid)(inner, inner, inner.find(q(DS, 'Signature')))
+                cv.text = base64.b64encode(kid + b'\n' + ET.tostring(inner, encoding='utf-8')).decode('ascii')
+                forged = ET.tostring(root, encoding='unicode')
+            except Exception as e:
+                violations.append({'name': 'bounded[wrap-table:genuine]', 'case': label, 'what': 'could not prepare the message: %r' % (e,)})
+                continue
+            try:
+                ar = sp.parse_authn_request_response(base64.b64encode(forged.encode('utf-8')).decode('ascii'), env.POST, {rid: '/'})
+                ava = getattr(ar, 'ava', None)
+            except Exception as e:
+                ar, ava = None, repr(e)[:200]
+            if not foreign and (ar is None or ava != GOOD):
+                violations.append({'name': 'bounded[wrap-table:genuine]', 'case': label,
+                                   'what': 'the control (inner assertion issued and signed by the sender) was not read as asserted: %r' % (ava,)})
+            if foreign and ar is not None and ava:
+                violations.append({'name': 'bounded[wrap-table:foreign-issuer]', 'case': label,
+                                   'what': 'attributes %r were read from an advice assertion that names %s as its issuer but is signed with the key of '
+                                           'the identity provider that sent the response' % (ava, FOREIGN_ISSUER), 'input': forged[:20000]})
+            elif foreign:
+                rejected += 1
     return {'name': 'wrap_table', 'label': 'BOUNDED (signature-wrapping rearrangements of a signed response, with a stand-in for xmlsec1; not a proof)',
             'bound': '%d kinds of rearrangement (plain, and made inside the ciphertext of an encrypted assertion) x signing modes x the SP settings '
                      'each mode satisfies (response / assertions / both required); stand-in tool' % len(names),
